@@ -224,7 +224,7 @@ def run_job(ctx, job):
         @st.composite
         def cases(draw):
             if job["what"] == "recv":
-                L = draw(st.one_of(st.sampled_from(BODY_LENS), st.integers(0, 600), st.integers(0, 5000)))
+                L = draw(st.one_of(st.sampled_from(BODY_LENS), st.integers(0, 600), st.integers(0, 5000), st.integers(0, 65511)))
                 flen = 24 + L
                 cuts = sorted(set(draw(st.lists(st.one_of(st.integers(1, max(1, flen - 1)), st.sampled_from(boundary_set(flen) or [1])), max_size=12))))
                 fault = None
